@@ -1421,6 +1421,12 @@ pub fn stream_zoo(prop: &str, tier: Tier) -> Stats {
             vec![Op::WA(s), Op::F, Op::P, Op::DB, Op::F, Op::W(1)],
             vec![Op::DB, Op::WA(s), Op::F],
             vec![Op::WA(s), Op::FPP, Op::DB, Op::WA(1), Op::F],
+            // two flushes (or a flush and the drop) without a poll in between whose writes add up
+            // to exactly one chunk, one less, one more
+            vec![Op::WA(s), Op::F, Op::WA(c.saturating_sub(s)), Op::F, Op::DW],
+            vec![Op::WA(s), Op::F, Op::W(c.saturating_sub(s)), Op::DW],
+            vec![Op::WA(s), Op::F, Op::WA((c + 1).saturating_sub(s)), Op::F, Op::WA(1), Op::DW],
+            vec![Op::WA(s), Op::F, Op::WA(c.saturating_sub(s + 1)), Op::F, Op::P, Op::WA(1), Op::F, Op::DW],
         ]
     };
     let mut cases: Vec<(Config, Vec<Op>)> = Vec::new();
